@@ -4,6 +4,7 @@ import RNacos.Driver.Sequence
 import RNacos.Driver.AuthDrv
 import RNacos.Driver.ConfigDrv
 import RNacos.Driver.NamingDrv
+import RNacos.Driver.IndexDrv
 open RNacos.Driver
 
 /-- Generic loop: `# …` lines are echoed and reset the state. -/
@@ -35,9 +36,11 @@ def main (args : List String) : IO UInt32 := do
   | ["console"] => loop stdin stdout () AuthDrv.step (); return 0
   | ["console", "--spec"] => loop stdin stdout ({} : AuthDrv.SpecSt) (AuthDrv.specStep AuthDrv.specConsole) {}; return 0
   | ["perm"] => loop stdin stdout () AuthDrv.step (); return 0
-  | ["perm", "--spec"] => loop stdin stdout () (fun _ _ => ((), "-")) (); return 0
+  | ["perm", "--spec"] => loop stdin stdout ({} : AuthDrv.SpecSt) (AuthDrv.specStep AuthDrv.specPerm) {}; return 0
   | ["config"] => loop stdin stdout ({} : ConfigDrv.St) ConfigDrv.step {}; return 0
   | ["config", "--spec"] => loop stdin stdout ({} : ConfigDrv.SpecSt) ConfigDrv.specStep {}; return 0
   | ["naming"] => loop stdin stdout ({} : RNacos.Naming.Naming) NamingDrv.step {}; return 0
   | ["naming", "--spec"] => loop stdin stdout ({} : NamingDrv.SpecSt) NamingDrv.specStep {}; return 0
+  | ["indexfile"] => loop stdin stdout ({} : IndexDrv.St) IndexDrv.step {}; return 0
+  | ["indexfile", "--spec"] => loop stdin stdout ({} : IndexDrv.SpecSt) IndexDrv.specStep {}; return 0
   | _ => IO.eprintln "usage: driver <model> [--spec]"; return 2
